@@ -17,21 +17,23 @@ from .. import common, build, e1, e3
 SNAMES = ['s1.svc', 's2.svc']
 STYPES = [None, 'login', 'dronecheck', 'login-ipr']
 RNAMES = ['r1', 'r2']
-RKINDS = [None, {'class': 'k1', 'account': 'ka*'}, {'class': 'k2', 'account': 'kb*'}, {'class': 'k1'}, {'class': 'k1', 'account': 'kb*'}, {'account': 'ka*'}]
+RKINDS = [None, {'class': 'k1', 'account': 'ka*'}, {'class': 'k2', 'account': 'kb*'}, {'class': 'k1'}, {'class': 'k1', 'account': 'kb*'}, {'account': 'ka*'},
+          {'class': 'k1', 'account': 'KA*'}]       # differs from the first kind in letter case only (globs are case-sensitive: it matches no probe account)
+ABSENT = 'section-absent'                       # the reloaded file has no iauth_xquery{} / iauth_class{} section at all
 R2KINDS = [None, {'class': 'k3'}]          # the second rule: absent or a catch-all that sorts after r1
 FIXED_RULES = [('r1', {'class': 'k1', 'account': 'ka*'}), ('r2', {'class': 'k2'})]
 FIXED_SERVICES = [('s1.svc', 'login'), ('s2.svc', 'dronecheck')]
 
 
 def tables_universe():
-    return {'services': list(itertools.product(STYPES, repeat=2)), 'rules': list(itertools.product(RKINDS, R2KINDS))}
+    return {'services': list(itertools.product(STYPES, repeat=2)) + [ABSENT], 'rules': list(itertools.product(RKINDS, R2KINDS)) + [ABSENT]}
 
 
 def svc_table(t):
-    return [(n, ty) for n, ty in zip(SNAMES, t) if ty]
+    return [] if t == ABSENT else [(n, ty) for n, ty in zip(SNAMES, t) if ty]
 
 def rule_table(t):
-    return [(n, dict(kv)) for n, kv in zip(RNAMES, t) if kv]
+    return [] if t == ABSENT else [(n, dict(kv)) for n, kv in zip(RNAMES, t) if kv]
 
 def conf_for(moddir, universe, t, modules=None, logs=None):
     kw = {}
@@ -40,8 +42,10 @@ def conf_for(moddir, universe, t, modules=None, logs=None):
     if logs:
         kw['logs'] = logs
     if universe == 'services':
-        return e1.conf_text(moddir, services=svc_table(t), timeout=0, rules=FIXED_RULES, **kw)
-    return e1.conf_text(moddir, services=FIXED_SERVICES, timeout=0, rules=rule_table(t), **kw)
+        text = e1.conf_text(moddir, services=svc_table(t), timeout=0, rules=FIXED_RULES, **kw)
+        return text.replace('iauth_xquery {\n}\n', '') if t == ABSENT else text
+    text = e1.conf_text(moddir, services=FIXED_SERVICES, timeout=0, rules=rule_table(t), **kw)
+    return text.replace('iauth_class {\n}\n', '') if t == ABSENT else text
 
 
 def probes(serial):
@@ -135,6 +139,8 @@ def _fresh(item):
 
 
 def edit_kind(universe, prev, last):
+    if prev == ABSENT or last == ABSENT:
+        return 'same' if prev == last else ('section-removed' if last == ABSENT else 'section-added')
     kinds = set()
     for a, c in zip(prev, last):
         if a == c:
@@ -144,6 +150,8 @@ def edit_kind(universe, prev, last):
 
 
 def tstr(universe, t):
+    if t == ABSENT:
+        return '<no section in the file>'
     if universe == 'services':
         return '{%s}' % ', '.join('%s %s' % x for x in svc_table(t))
     return '{%s}' % ', '.join('%s %s' % (n, ' '.join('%s=%s' % kv for kv in sorted(r.items()))) for n, r in rule_table(t))
@@ -225,6 +233,10 @@ def main(tier):
         for g in pool.imap_unordered(_group, items):
             if 'harness_error' in g:
                 raise common.HarnessError(g['harness_error'])
+            if run.out_of_time(30):
+                run.cap('deadline: not every start table was explored')
+                pool.terminate()
+                break
             u, t0, w = g['universe'], g['t0'], g['waiter']
             tables = _G['tables'][u]
             for seq, rec, died in g['results']:
